@@ -36,7 +36,8 @@ def r1_truthiness_template(ctx):
     ifc = [c for c in P.calls(f) if P.un(c.func) == "ast.If"]
     if len(ifc) != 1:
         raise AnalysisError("_if_to_py_ast does not build exactly one ast.If")
-    kws = {k.arg: k.value for k in ifc[0].keywords}
+    # a data-flow view: temporaries that merely name a piece of the If are replaced by their definitions
+    kws = {k.arg: P.expand_locals(f, k.value, keep=("then_ast", "else_ast")) for k in ifc[0].keywords}
     t = kws.get("test")
     ok = isinstance(t, ast.Call) and P.un(t.func) == "ast.BoolOp" and "op=ast.Or()" in P.un(t)
     ctx.ob("C01.R1", f"{GEN}::_if_to_py_ast::test is a disjunction", GEN, f.lineno, ok, "" if ok else "the falsiness test is no longer `... or ...`")
